@@ -91,6 +91,17 @@ RULES = {
 import re as _re
 from . import rustlex as _lex
 
+# Global normalisations, applied to every extracted function after its own rules (vx/gen.py):
+GLOBAL_RULES = [
+    # N6: PollArray/PollVec::set_all_none / set_all_pending are `self.fill(PollState::X)` (poll_state/{array,vec}.rs)
+    ('G_N6_set_all_none', r'(\bself\.\w+)\.set_all_none\(\)', r'\1.fill(PollState::None)'),
+    ('G_N6_set_all_pending', r'(\bself\.\w+)\.set_all_pending\(\)', r'\1.fill(PollState::Pending)'),
+    # N8: Option::map_or with the Poll constructors as function values (Verus: "datatype constructor as a function value")
+    # N5: core::task::ready!(E) is `match E { Poll::Ready(t) => t, Poll::Pending => return Poll::Pending }` (its definition)
+    ('G_N5_ready_macro', lambda body: _g_ready(body), None),
+    ('G_N8_map_or_poll', r'\b(\w+)\.map_or\(\s*Poll::Pending\s*,\s*Poll::Ready\s*\)', r'(match \1 { Some(v_) => Poll::Ready(v_), None => Poll::Pending })'),
+]
+
 
 def iter_mut_to_index(body):
     m = _re.search(r'for\s+state\s+in\s+self\.state\.iter_mut\(\)\s*\{', body)
@@ -128,6 +139,19 @@ def for_each_to_index(body):
         return body, 0
     inner = _re.sub(r'\bstate\.', 'self.state[k].', body[ob:cb + 1])
     return body[:m.start()] + 'let n_ = self.state.len(); for k in 0..n_ ' + inner + body[cb + 1 + m2.end():], 1
+
+
+def _g_ready(body):
+    n = 0
+    while True:
+        m = _re.search(r'\bready!\(', body)
+        if not m:
+            return body, n
+        ob = m.end() - 1
+        cb = _lex.match_close(_lex.mask(body), ob)
+        inner = body[ob + 1:cb]
+        body = body[:m.start()] + '(match %s { Poll::Ready(t_) => t_, Poll::Pending => { return Poll::Pending; } })' % inner + body[cb + 1:]
+        n += 1
 
 
 # extension modules vx/rules_*.py may define RULES (dict) to be merged (one file per author, no conflicts)
